@@ -35,10 +35,15 @@ def make_pair(case):
     else:
         active = np.arange(n if not case['triples'] else 3 * (n // 3))
     na = active.size
-    Q, _ = np.linalg.qr(rs.normal(size=(na, na)))
-    mev = np.exp(rs.uniform(0., np.log(case['mcond']), na))
-    Ma = (Q * mev).dot(Q.T)
-    Ma = (Ma + Ma.T) / 2.
+    if case.get('structure') == 'chain' and na >= 3:
+        # structured mass matrix tridiag(-1, 2, -1) (times a scale): positive definite, every interior column sums to exactly zero
+        # although none of its entries is zero
+        Ma = case['mcond'] * (2. * np.eye(na) - np.eye(na, k=1) - np.eye(na, k=-1))
+    else:
+        Q, _ = np.linalg.qr(rs.normal(size=(na, na)))
+        mev = np.exp(rs.uniform(0., np.log(case['mcond']), na))
+        Ma = (Q * mev).dot(Q.T)
+        Ma = (Ma + Ma.T) / 2.
     L = np.linalg.cholesky(Ma)
     # spectrum with clusters
     w = np.sort(np.exp(rs.uniform(np.log(0.5), np.log(case['wmax']), na)))
@@ -304,6 +309,7 @@ def _random_strategy(draw, tier='quick'):
             'triples': reduced, 'k': draw(st.integers(1, 25)), 'sparse': sparse,
             'sort': draw(st.sampled_from([True, True, True, False])), 'reduced': reduced,
             'clusters': draw(st.booleans()), 'mcond': draw(st.sampled_from([10., 1e3])),
+            'structure': draw(st.sampled_from(['random', 'random', 'random', 'chain'])),
             'wmax': draw(st.sampled_from([50., 500., 5000.])), 'scale': draw(gen.fl(0.1, 10.))}
 
 
